@@ -622,6 +622,15 @@ impl Runner {
                 let after = self.book();
                 if out.accepted() {
                     self.track(&before, &after, &sender, &req, &out, &exp);
+                    let (a_ids, b_ids) = req.named();
+                    if b_ids.iter().any(|i| self.judge.tracker.bids.get(i).map(|x| x.fills >= 5).unwrap_or(false))
+                        || a_ids.iter().any(|i| self.judge.tracker.asks.get(i).map(|x| x.fills >= 5).unwrap_or(false))
+                    {
+                        self.judge.label("order-filled-five-times-or-more");
+                    }
+                    if after.asks.len() >= 10 || after.bids.len() >= 10 {
+                        self.judge.label("ten-or-more-open-orders-on-a-side");
+                    }
                 }
                 let view = StepView {
                     world_before: &world_before,
